@@ -15,6 +15,11 @@ if rnd > 1:
     extra = ('\nThis is a second round: avoid the most obvious place for such a slip. Prefer changes that involve a configuration option, '
              'a rarely used message type or store back end, a boundary value, an error or recovery path, the interaction of two features, '
              'or a code path reached only after a particular history.\n')
+if rnd > 2:
+    extra = ('\nThis is a third round; two earlier rounds already produced the obvious slips and slips tied to single configuration options. '
+             'Look for something different: a slip whose effect is delayed (the state is wrong now, the symptom comes several events later), '
+             'a slip in how state is carried across connections, restarts or epochs, a slip that needs two unusual conditions at once, '
+             'or a slip in code shared by several message types that only one of them exposes.\n')
 print(f'''You are helping test a verification effort for the Go library quickfixgo/quickfix (a FIX protocol engine). Work ONLY inside the git worktree at {wt} (a checkout of the library). Do not look at or touch any other directory (in particular nothing outside {wt}).
 
 Here is a semantic property the library is supposed to satisfy:
